@@ -171,7 +171,9 @@ func optProfile() *gast.Profile {
 	p.PLabel = 45
 	p.PWideRange = 0
 	p.ActSpec = func(r *rand.Rand) mon.Spec { return mon.Spec{R: pick(r, 1, 2, 2, 3, 4), E: pick(r, 0, 0, 0, 2)} }
-	p.PredSpec = func(r *rand.Rand) mon.Spec { return mon.Spec{B: pick(r, 0, 0, 1, 4)} }
+	// predicates are constants here: a coin over label values would see the regrouping of action-less
+	// structure that the optimizer is allowed to do
+	p.PredSpec = func(r *rand.Rand) mon.Spec { return mon.Spec{B: pick(r, 0, 0, 0, 1)} }
 	p.StateSpec = func(r *rand.Rand) mon.Spec { return mon.Spec{S: 1 + r.Intn(7)} }
 	return p
 }
@@ -190,6 +192,7 @@ func C09(c *Ctx) {
 	tp := throwProfile()
 	tp.MaxDepth, tp.MinRules, tp.MaxRules = 3, 3, 8
 	tp.ActSpec = p.ActSpec
+	tp.PredSpec = p.PredSpec
 	for i := 0; i < n; i++ {
 		if i%5 == 4 {
 			gs = append(gs, gast.Generate(rng, tp)) // throw/recover under the optimizer
